@@ -462,6 +462,11 @@ func (c *Conn) prepareDualStackServerHandshakeStart(ctx context.Context) (handsh
 		flight12: dtlsflight12.Flight0,
 		flight13: dtlsflight13.Flight0,
 		fsmState: dtlshandshake.StatePreparing,
+		// The ClientHello was consumed by the version negotiation above; wake
+		// the FSM so that it parses it instead of waiting for a retransmission.
+		postSetup: func(ctx context.Context) {
+			c.primeHandshakeRecv(ctx)
+		},
 	}, nil
 }
 
